@@ -3,7 +3,8 @@
 (* C12: a Signals / SignalsInfo instance through histories of              *)
 (*   <<"A", n>> add_signal(n)    <<"R", n>> raise(n) + pending()           *)
 (*   <<"H", 0>> / <<"h", 0>> clone / drop a handle    <<"X", 0>> drop the  *)
-(* instance.  The instance starts watching SIGUSR1 (10); an independent    *)
+(* instance,  <<"N", n>> construct a second instance from <<SIGUSR2, n>>.  *)
+(* The instance starts watching SIGUSR1 (10); an independent               *)
 (* witness action on SIGUSR1 shows what the registry still delivers.       *)
 (* Anchors: backend.rs:192-204 (add_signal), :64-71 (Drop unregisters      *)
 (* every recorded id), :263-281 (constructor).                             *)
@@ -27,5 +28,8 @@ Expect(ops, watched, alive) ==
                 <<<<"R", n, "-", IF alive /\ n \in watched THEN <<n>> ELSE << >>,
                    IF n = 10 THEN 1 ELSE 0>>>> \o Expect(Tail(ops), watched, alive)
            [] k = "X" -> <<<<"X", 0, "ok", << >>, 1>>>> \o Expect(Tail(ops), {}, FALSE)
+           \* a second instance built from <<SIGUSR2, n>>: the constructor's verdict is that of
+           \* add_signal(n); the first instance is not affected
+           [] k = "N" -> <<<<"N", n, AddClass(n), << >>, 0>>>> \o Expect(Tail(ops), watched, alive)
            [] OTHER -> Expect(Tail(ops), watched, alive)
 =============================================================================
